@@ -254,6 +254,7 @@ func ruleC10Reset(r *Run) {
 	}
 	sort.Strings(all)
 	invariant := map[string]string{"router": "request-invariant: written only by the pool constructor (checked below)"}
+	scratch := map[string]bool{}
 	for _, p := range all {
 		construct := "Context." + p
 		if why, ok := invariant[p]; ok {
@@ -289,6 +290,11 @@ func ruleC10Reset(r *Run) {
 			continue
 		}
 		a, ok := da[p]
+		if !ok && !strings.Contains(p, ".") && scratchField(w, w.Field("rux", "Context", p)) {
+			scratch[p] = true
+			r.Check(rule, construct, initFn.Pos(), true, "scratch buffer: every read of the field re-slices it to length 0 (or takes len/cap) before anything is appended, so what an earlier request left behind the length is never observed")
+			continue
+		}
 		if !ok {
 			pos := initFn.Pos()
 			r.Check(rule, construct, pos, false, "field is not assigned on every path of Context.Init (Init/reset/Reset inlined): state of the previous request survives in the pooled context")
@@ -301,7 +307,7 @@ func ruleC10Reset(r *Run) {
 	resetFn := w.Fn("rux", "Context.Reset")
 	dr := definiteAssign(w, resetFn, 0)
 	for _, p := range all {
-		if strings.HasPrefix(p, "writer.") || p == "Req" || p == "router" {
+		if strings.HasPrefix(p, "writer.") || p == "Req" || p == "router" || scratch[p] {
 			continue
 		}
 		_, ok := dr[p]
@@ -621,4 +627,47 @@ func flowsFromDeepNoAppendArgs(v ssa.Value, src func(ssa.Value) bool) bool {
 		return false
 	}
 	return walk(v, 0)
+}
+
+// scratchField: a slice-typed field that is only ever read to be re-sliced to length zero (x[:0]) or measured
+// (len/cap): a per-object scratch buffer whose old contents are unreachable.
+func scratchField(w *World, fv *types.Var) bool {
+	if fv == nil {
+		return false
+	}
+	if _, isSlice := fv.Type().Underlying().(*types.Slice); !isSlice {
+		return false
+	}
+	loads := 0
+	ok := true
+	for _, f := range w.Funcs {
+		for _, ld := range loadsOfField(f, fv) {
+			loads++
+			refs := ld.Referrers()
+			if refs == nil {
+				continue
+			}
+			for _, ref := range *refs {
+				switch x := ref.(type) {
+				case *ssa.DebugRef:
+				case *ssa.Slice:
+					hi, okc := constInt(x.High)
+					lowOK := x.Low == nil
+					if l, okl := constInt(x.Low); okl && l == 0 {
+						lowOK = true
+					}
+					if !okc || hi != 0 || !lowOK || x.Max != nil {
+						ok = false
+					}
+				case *ssa.Call:
+					if !isBuiltin(x, "len") && !isBuiltin(x, "cap") {
+						ok = false
+					}
+				default:
+					ok = false
+				}
+			}
+		}
+	}
+	return ok && loads > 0
 }
